@@ -1,3 +1,4 @@
 import GraphSlam.Props.C12.Ctl
+import GraphSlam.Props.C12.State
 
 /-! C12 — umbrella. -/
